@@ -11,6 +11,7 @@ import (
 	"io"
 	"os"
 	"sync"
+	"sync/atomic"
 
 	"github.com/syndtr/goleveldb/leveldb/errors"
 	"github.com/syndtr/goleveldb/leveldb/journal"
@@ -49,7 +50,7 @@ type session struct {
 	tops     *tOps
 
 	manifest       *journal.Writer
-	manifestFailed bool // An append to the manifest failed, start a new one on the next commit.
+	manifestFailed uint32 // An append to the manifest failed (atomic): start a new one on the next commit.
 	manifestWriter storage.Writer
 	manifestFd     storage.FileDesc
 
@@ -212,6 +213,13 @@ func (s *session) recover() (err error) {
 	return nil
 }
 
+// manifestUncertain reports whether the last append to the manifest failed: the
+// record of an edit that was reported as failed may be in the file all the same
+// until the next commit has written a new manifest.
+func (s *session) manifestUncertain() bool {
+	return atomic.LoadUint32(&s.manifestFailed) == 1
+}
+
 // Commit session; need external synchronization.
 func (s *session) commit(r *sessionRecord, trivial bool) (err error) {
 	v := s.version()
@@ -231,7 +239,7 @@ func (s *session) commit(r *sessionRecord, trivial bool) (err error) {
 	if s.manifest == nil {
 		// manifest journal writer not yet created, create one
 		err = s.newManifest(r, nv)
-	} else if s.manifest.Size() >= s.o.GetMaxManifestFileSize() || s.manifestFailed {
+	} else if s.manifest.Size() >= s.o.GetMaxManifestFileSize() || s.manifestUncertain() {
 		// Also taken after a failed append: the journal writer keeps its
 		// error and the record may be in the file although it was reported
 		// as failed, a new manifest written from the current state voids both.
@@ -247,12 +255,12 @@ func (s *session) commit(r *sessionRecord, trivial bool) (err error) {
 		}
 		err = s.newManifest(nr, nv)
 		if err == nil {
-			s.manifestFailed = false
+			atomic.StoreUint32(&s.manifestFailed, 0)
 		}
 	} else {
 		err = s.flushManifest(r)
 		if err != nil {
-			s.manifestFailed = true
+			atomic.StoreUint32(&s.manifestFailed, 1)
 		}
 	}
 
